@@ -133,7 +133,8 @@ $(BUILD)/fuzz/C18_fuzz: $(SRC)/fuzz/C18_fuzz.cpp $(SRC)/props/C18_oracle.hpp $(a
 # simulator's recording allocator; the BSD-style socket names are renamed in the
 # combined object so that they do not shadow libc's.
 WSIM_LIB := reproc redirect options strv drain run clock.windows error.windows handle.windows init.windows pipe.windows process.windows redirect.windows utf.windows
-WSIM_CFLAGS := -O1 -g -std=gnu99 $(SAN) -D_WIN32 -D_WIN64 -DWIN32 -fdeclspec -I$(SRC)/winsim -I$(VERIF_REPO)/reproc/include -I$(VERIF_REPO)/reproc/src
+# (NDEBUG, the flavour that ships: an ASSERT that fires would end the worker in every binary alike and blur which property a change breaks)
+WSIM_CFLAGS := -O1 -g -std=gnu99 $(SAN) -DNDEBUG -D_WIN32 -D_WIN64 -DWIN32 -fdeclspec -I$(SRC)/winsim -I$(VERIF_REPO)/reproc/include -I$(VERIF_REPO)/reproc/src
 $(BUILD)/wsim/%.o: $(VERIF_REPO)/reproc/src/%.c $(wildcard $(SRC)/winsim/*.h)
 	@mkdir -p $(dir $@)
 	$(CC) $(WSIM_CFLAGS) -Wno-everything -MMD -MP -c $< -o $@
